@@ -71,6 +71,7 @@ class HtmlAttrsNode(BaseNode):
     def render(
         self,
         context: Context,
+        /,
         attrs: Optional[Dict] = None,
         defaults: Optional[Dict] = None,
         **kwargs: Any,
